@@ -40,3 +40,11 @@ Definition truth_pc_out_ok (o : out) (t : option (N * stages)) : bool :=
       | _, _ => false
       end
   end.
+
+(** C04 ground truth: per group, in declaration order, (field name, kind, binding) *)
+Definition truth_groups_ok (o : out) (t : list (N * list (string * res_kind * N))) : bool :=
+  list_eqb (pair_eqb N.eqb (list_eqb (pair_eqb (pair_eqb String.eqb res_kind_eqb) N.eqb)))
+    (map (fun g => (og_no g, map (fun e => (be_field e, be_kind e, be_binding e)) (og_bind_entries g))) (C03Spec.groups_of o)) t
+  && list_eqb (pair_eqb N.eqb (list_eqb (pair_eqb String.eqb res_kind_eqb)))
+    (map (fun g => (og_no g, og_layout_fields g)) (C03Spec.groups_of o))
+    (map (fun x => (fst x, map fst (snd x))) t).
